@@ -128,11 +128,14 @@ def jobs(tier):
     Hp = 8
     psc = [("1F2", [fixed("a", 2), worker("w"), req("a", "w")]), ("1F3", [fixed("a", 3), worker("w"), req("a", "w")]),
            ("1V", [var("a", min_duration=1, max_duration=4), worker("w"), req("a", "w")])]
+    psc.append(("cF2", [fixed("a", 2), fixed("b", 1), cumul("w", 2), req("a", "w"), req("b", "w")]))
+    psc.append(("sel", [fixed("a", 2), worker("w"), worker("v"), select("s", ["w", "v"]), req("a", "s")]))
     if tier == "thorough":
         psc.append(("F1F2", [fixed("a", 1), fixed("b", 2), worker("w"), req("a", "w"), req("b", "w")]))
-        psc.append(("cF2", [fixed("a", 2), fixed("b", 1), cumul("w", 2), req("a", "w"), req("b", "w")]))
     for (slab, sdecls) in psc:
-        for (clab, cdecls) in periodic(Hp, tier):
+        for pi, (clab, cdecls) in enumerate(periodic(Hp, tier)):
+            if tier == "quick" and slab in ("cF2", "sel") and pi % 3:
+                continue
             out.append({"program": prog(Hp, sdecls + cdecls), "families": fam, "family": clab})
     for (clab, decls) in same_distinct(tier):
         out.append({"program": prog(2, decls), "families": fam, "family": clab})
